@@ -65,6 +65,11 @@ SelfExpect(nm, C, sigma, pr) ==
 AsIsoExpect(s, i, C, sigma, pr, M, rho) ==
    [slope |-> <<s>>, intercept |-> <<i>>, area_over_NA18 |-> <<sigma, s, R(1, 1000), RInv(BetX(C, pr))>>,
     adsorbed_volume |-> <<i, M, RInv(rho), R(1, 1000)>>]
+\* the same against an exact Langmuir reference (n_m, K) whose LANGMUIR area the library derives:
+\* area = n_m sigma N_A / (1000 n_m x_L(pr)) * s, with x_L the reduced Langmuir loading of the REFERENCE
+AsIsoLangExpect(s, i, K, sigma, pr, M, rho) ==
+   [slope |-> <<s>>, intercept |-> <<i>>, area_over_NA18 |-> <<sigma, s, R(1, 1000), RInv(LangX(K, pr))>>,
+    adsorbed_volume |-> <<i, M, RInv(rho), R(1, 1000)>>]
 \* DR / DA: total micropore volume vt [cm3], characteristic energy eps [J/mol], exponent m
 \* capacity of the generating model n_t = vt rho / M; reported potential in kJ/mol
 DaExpect(vt, eps, m, M, rho) ==
